@@ -15,6 +15,7 @@ import queue
 import gc
 
 from contextlib import contextmanager
+from hashlib import sha256
 from time import perf_counter, time
 
 from aionostr.event import Event, EventKind
@@ -264,8 +265,15 @@ class TagIndex(Index):
     prefix = b"\x09"
     cardinality = 100
 
+    # lmdb keys are limited to 511 bytes, 38 of which are the created_at/id suffix
+    max_value_size = 256
+
     def to_key(self, value: tuple[str, str]) -> bytes:
-        return b"%s%s\x00%s" % (self.prefix, value[0].encode(), value[1].encode())
+        tagvalue = value[1].encode()
+        if len(tagvalue) > self.max_value_size:
+            # index long values by digest; matcher() re-checks the real value
+            tagvalue = sha256(tagvalue).digest()
+        return b"%s%s\x00%s" % (self.prefix, value[0].encode(), tagvalue)
 
     def convert(self, event: Event):
         for tag in event.tags:
